@@ -297,6 +297,48 @@ def contentsFromWire (allow : Option (List Bytes)) : List (Option WC) → Except
     .ok (c :: cs)
 end
 
+/-! ## Well-formed content values (the domain of `content_roundtrip`) -/
+
+/-- an optional plain sub-struct (`*Annotations`, `*ResourceContents`): absent or a JSON object -/
+def isObjOpt : Option JVal → Bool
+  | none => true
+  | some (.obj _) => true
+  | _ => false
+
+mutual
+/-- A content value as the Go types can hold it: sub-structs are objects, `size` is an int64, a
+non-nil `structuredContent` does not marshal to `null`, and the blocks nested in a tool_result are
+of the kinds `contentFromWire` admits there (regenerated `allowNested`). -/
+def wfContent : Content → Bool
+  | .text _ _ a => isObjOpt a
+  | .image _ _ _ a => isObjOpt a
+  | .audio _ _ _ a => isObjOpt a
+  | .link _ _ _ _ _ sz _ a ic => isObjOpt a && cAllObj ic && (match sz with | some n => inInt64 n | none => true)
+  | .resource r _ a => isObjOpt a && isObjOpt r
+  | .toolUse .. => true
+  | .toolResult _ cs st _ _ => (match st with | some .null => false | _ => true) && wfNested cs
+def wfNested : List Content → Bool
+  | [] => true
+  | c :: t => wfContent c && allowed allowNested c.kind && wfNested t
+end
+
+mutual
+/-- The `wireContent` value a content value unmarshals to. -/
+def toWC : Content → WC
+  | .text t m a => .mk { type := kText, text := t, mta := m, ann := a } none
+  | .image d mi m a => .mk { type := kImage, data := d, mime := mi, mta := m, ann := a } none
+  | .audio d mi m a => .mk { type := kAudio, data := d, mime := mi, mta := m, ann := a } none
+  | .link u nm t d mi sz m a ic =>
+    .mk { type := kLink, uri := u, name := nm, title := t, description := d, mime := mi, size := sz, mta := m, ann := a, icons := ic } none
+  | .resource r m a => .mk { type := kResource, resource := r, mta := m, ann := a } none
+  | .toolUse id nm inp m => .mk { type := kToolUse, id := id, name := nm, input := inp, mta := m } none
+  | .toolResult tid cs st ie m =>
+    .mk { type := kToolResult, toolUseId := tid, structured := st, isError := ie, mta := m } (some (toWCs cs))
+def toWCs : List Content → List (Option WC)
+  | [] => []
+  | c :: t => some (toWC c) :: toWCs t
+end
+
 /-- Unmarshal one content object (`*wireContent` member) and convert it. -/
 def decodeContent (allow : Option (List Bytes)) (j : JVal) : Except CErr Content := do
   let w ← wcOfJson j
